@@ -4,6 +4,7 @@ import functools
 import math
 import struct
 from decimal import Decimal
+from fractions import Fraction
 
 from claripy.errors import ClaripyOperationError
 from claripy.fp import FSORT_DOUBLE, FSORT_FLOAT, RM, FSort
@@ -33,6 +34,93 @@ def normalize_types(f):
         return f(self, o)
 
     return normalize_helper
+
+
+def _round_exact(exact, sort, rm, negative_zero=False):
+    """
+    The float of sort `sort` that IEEE-754 assigns to the exact rational `exact` under rounding mode `rm`.
+    `negative_zero` is the sign to use when `exact` is zero.
+    """
+    if exact == 0:
+        return -0.0 if negative_zero else 0.0
+    negative = exact < 0
+    a = -exact if negative else exact
+    precision = sort.mantissa
+    emax = (1 << (sort.exp - 1)) - 1
+    emin = 1 - emax
+    # 2**e <= a < 2**(e+1), but not below the exponent of the subnormals
+    e = a.numerator.bit_length() - a.denominator.bit_length()
+    if a < Fraction(2) ** e:
+        e -= 1
+    e = max(e, emin)
+    quantum = Fraction(2) ** (e - (precision - 1))
+    q, r = divmod(a, quantum)
+    if r != 0:
+        half = quantum / 2
+        if rm == RM.RM_NearestTiesEven:
+            up = r > half or (r == half and q % 2 == 1)
+        elif rm == RM.RM_NearestTiesAwayFromZero:
+            up = r >= half
+        elif rm == RM.RM_TowardsPositiveInf:
+            up = not negative
+        elif rm == RM.RM_TowardsNegativeInf:
+            up = negative
+        else:
+            up = False
+        if up:
+            q += 1
+    result = q * quantum
+    largest = (2 - Fraction(2) ** (1 - precision)) * Fraction(2) ** emax
+    if result > largest:
+        to_infinity = (
+            rm in (RM.RM_NearestTiesEven, RM.RM_NearestTiesAwayFromZero)
+            or (rm == RM.RM_TowardsPositiveInf and not negative)
+            or (rm == RM.RM_TowardsNegativeInf and negative)
+        )
+        result = math.inf if to_infinity else largest
+    value = float(result)
+    if value == 0.0:
+        return -0.0 if negative else 0.0
+    return -value if negative else value
+
+
+def _is_finite(value):
+    return not (math.isnan(value) or math.isinf(value))
+
+
+def _negative(value):
+    return math.copysign(1.0, value) < 0
+
+
+def _arith(op, rm, a, b):
+    """
+    a `op` b (add, sub, mul, div) for two FPVs of one sort, correctly rounded under `rm`.
+    """
+    x, y = a.value, b.value
+    if op == "sub":
+        op, y = "add", -y
+    if not (_is_finite(x) and _is_finite(y)) or (op == "div" and y == 0):
+        # the result is a NaN, an infinity or a copy of an infinite operand: no rounding involved
+        if op == "add":
+            return FPV(x + y, a.sort)
+        if op == "mul":
+            return FPV(x * y, a.sort)
+        if y != 0:
+            return FPV(x / y, a.sort)
+        if x == 0 or math.isnan(x):
+            return FPV(float("nan"), a.sort)
+        return FPV(-math.inf if _negative(x) != _negative(y) else math.inf, a.sort)
+    fx, fy = Fraction(x), Fraction(y)
+    if op == "add":
+        exact = fx + fy
+        # an exact zero sum of opposite-signed operands is +0, except when rounding towards negative infinity
+        negative_zero = (_negative(x) and _negative(y)) or (
+            _negative(x) != _negative(y) and rm == RM.RM_TowardsNegativeInf
+        )
+    else:
+        exact = fx * fy if op == "mul" else fx / fy
+        negative_zero = _negative(x) != _negative(y)
+    return FPV(_round_exact(exact, a.sort, rm, negative_zero), a.sort)
 
 
 class FPV:
@@ -65,25 +153,45 @@ class FPV:
     def __neg__(self):
         return FPV(-self.value, self.sort)
 
-    def fpSqrt(self):
+    def fpSqrt(self, rm=RM.RM_NearestTiesEven):
         if self.value < 0:
             return FPV(float("nan"), self.sort)
-        return FPV(math.sqrt(self.value), self.sort)
+        if self.value == 0 or not _is_finite(self.value):
+            return FPV(self.value, self.sort)
+        a = Fraction(self.value)
+        # 2**e <= sqrt(a) < 2**(e+1); square roots of floats are never subnormal
+        e = a.numerator.bit_length() - a.denominator.bit_length()
+        if a < Fraction(2) ** e:
+            e -= 1
+        e //= 2
+        quantum = Fraction(2) ** (e - (self.sort.mantissa - 1))
+        scaled = a / (quantum * quantum)
+        q = math.isqrt(scaled.numerator // scaled.denominator)
+        if q * q != scaled:
+            # inexact: decide by where sqrt(scaled) lies relative to q + 1/2 (never a tie: that would make it exact)
+            above_half = 4 * scaled > (2 * q + 1) ** 2
+            if rm in (RM.RM_NearestTiesEven, RM.RM_NearestTiesAwayFromZero):
+                up = above_half
+            else:
+                up = rm == RM.RM_TowardsPositiveInf
+            if up:
+                q += 1
+        return FPV(float(q * quantum), self.sort)
 
     @normalize_types
     @compare_sorts
     def __add__(self, o):
-        return FPV(self.value + o.value, self.sort)
+        return _arith("add", RM.RM_NearestTiesEven, self, o)
 
     @normalize_types
     @compare_sorts
     def __sub__(self, o):
-        return FPV(self.value - o.value, self.sort)
+        return _arith("sub", RM.RM_NearestTiesEven, self, o)
 
     @normalize_types
     @compare_sorts
     def __mul__(self, o):
-        return FPV(self.value * o.value, self.sort)
+        return _arith("mul", RM.RM_NearestTiesEven, self, o)
 
     @normalize_types
     @compare_sorts
@@ -93,14 +201,7 @@ class FPV:
     @normalize_types
     @compare_sorts
     def __truediv__(self, o):
-        try:
-            return FPV(self.value / o.value, self.sort)
-        except ZeroDivisionError:
-            if self.value == 0 or math.isnan(self.value):
-                return FPV(float("nan"), self.sort)
-            if str(self.value * o.value)[0] == "-":
-                return FPV(float("-inf"), self.sort)
-            return FPV(float("inf"), self.sort)
+        return _arith("div", RM.RM_NearestTiesEven, self, o)
 
     def __floordiv__(self, other):  # decline to involve integers in this floating point process
         return self.__truediv__(other)
@@ -112,17 +213,17 @@ class FPV:
     @normalize_types
     @compare_sorts
     def __radd__(self, o):
-        return FPV(o.value + self.value, self.sort)
+        return _arith("add", RM.RM_NearestTiesEven, o, self)
 
     @normalize_types
     @compare_sorts
     def __rsub__(self, o):
-        return FPV(o.value - self.value, self.sort)
+        return _arith("sub", RM.RM_NearestTiesEven, o, self)
 
     @normalize_types
     @compare_sorts
     def __rmul__(self, o):
-        return FPV(o.value * self.value, self.sort)
+        return _arith("mul", RM.RM_NearestTiesEven, o, self)
 
     @normalize_types
     @compare_sorts
@@ -132,14 +233,7 @@ class FPV:
     @normalize_types
     @compare_sorts
     def __rtruediv__(self, o):
-        try:
-            return FPV(o.value / self.value, self.sort)
-        except ZeroDivisionError:
-            if o.value == 0 or math.isnan(o.value):
-                return FPV(float("nan"), self.sort)
-            if str(o.value * self.value)[0] == "-":
-                return FPV(float("-inf"), self.sort)
-            return FPV(float("inf"), self.sort)
+        return _arith("div", RM.RM_NearestTiesEven, o, self)
 
     def __rfloordiv__(self, other):  # decline to involve integers in this floating point process
         return self.__rtruediv__(other)
@@ -216,9 +310,11 @@ def fpToFP(a1, a2, a3=None):
 
         return FPV(unpacked, sort)
     if isinstance(a1, RM) and isinstance(a2, FPV) and isinstance(a3, FSort):
-        return FPV(a2.value, a3)
+        if not _is_finite(a2.value):
+            return FPV(a2.value, a3)
+        return FPV(_round_exact(Fraction(a2.value), a3, a1, _negative(a2.value)), a3)
     if isinstance(a1, RM) and isinstance(a2, BVV) and isinstance(a3, FSort):
-        return FPV(float(a2.signed), a3)
+        return FPV(_round_exact(Fraction(a2.signed), a3, a1), a3)
     raise ClaripyOperationError("unknown types passed to fpToFP")
 
 
@@ -228,7 +324,7 @@ def fpToFPUnsigned(_rm, thing, sort):
     whose sort is `sort`.
     """
     # thing is a BVV
-    return FPV(float(thing.value), sort)
+    return FPV(_round_exact(Fraction(thing.value), sort, _rm), sort)
 
 
 def fpToIEEEBV(fpv):
@@ -372,32 +468,42 @@ def fpNeg(x):
     return -x
 
 
-def fpSub(_rm, a, b):
-    """
-    Returns the subtraction of the floating point `a` by the floating point `b`.
-    """
-    return a - b
+def _binary(op, rm, a, b):
+    if isinstance(b, float):
+        b = FPV(b, a.sort)
+    if not isinstance(a, FPV) or not isinstance(b, FPV):
+        raise TypeError("must have two FPVs")
+    if a.sort != b.sort:
+        raise TypeError(f"FPVs are differently-sorted ({a.sort} and {b.sort})")
+    return _arith(op, rm, a, b)
 
 
-def fpAdd(_rm, a, b):
+def fpSub(rm, a, b):
     """
-    Returns the addition of two floating point numbers, `a` and `b`.
+    Returns the subtraction of the floating point `a` by the floating point `b`, rounded according to `rm`.
     """
-    return a + b
+    return _binary("sub", rm, a, b)
 
 
-def fpMul(_rm, a, b):
+def fpAdd(rm, a, b):
     """
-    Returns the multiplication of two floating point numbers, `a` and `b`.
+    Returns the addition of two floating point numbers, `a` and `b`, rounded according to `rm`.
     """
-    return a * b
+    return _binary("add", rm, a, b)
 
 
-def fpDiv(_rm, a, b):
+def fpMul(rm, a, b):
     """
-    Returns the division of the floating point `a` by the floating point `b`.
+    Returns the multiplication of two floating point numbers, `a` and `b`, rounded according to `rm`.
     """
-    return a / b
+    return _binary("mul", rm, a, b)
+
+
+def fpDiv(rm, a, b):
+    """
+    Returns the division of the floating point `a` by the floating point `b`, rounded according to `rm`.
+    """
+    return _binary("div", rm, a, b)
 
 
 def fpIsNaN(x):
